@@ -13,7 +13,8 @@ MSG), tuples/lists of those.  Fragment:
                slice, key; out-of-range / missing key -> fault routed to handlers), Compare (is, is not, ==, !=, <, <=, >, >=, in, not in),
                BoolOp, not, IfExp, f-strings (-> MSG), isinstance(x, int|str|tuple|list|bool|float)
                or a tuple of those, len(x), bool(x)
-  statements   If, Return, Assign (name or tuple-unpacking targets), Expr(docstring / logging),
+  statements   For over a concrete sequence, While (bounded), Break, Continue,
+               If, Return, Assign (name or tuple-unpacking targets), Expr(docstring / logging),
                Pass, Raise (-> outcome ('raise', <exception name>)), Try with `except` clauses
                (an unpacking failure or comparison of None raises inside the evaluator and is
                routed to the first handler that names Exception, TypeError or ValueError)
@@ -39,13 +40,22 @@ class _Raised(Exception):
         self.name = name
 
 
+class _Break(Exception):
+    pass
+
+
+class _Continue(Exception):
+    pass
+
+
 class _Fault(Exception):
     """A run-time error of the interpreted code (TypeError / ValueError)."""
     def __init__(self, name):
         self.name = name
 
 
-_TYPES = {'int': int, 'str': str, 'tuple': tuple, 'list': list, 'bool': bool, 'float': float, 'dict': dict}
+_TYPES = {'int': int, 'str': str, 'tuple': tuple, 'list': list, 'bool': bool, 'float': float, 'dict': dict,
+          'MutableMapping': dict, 'Mapping': dict}
 
 
 class MiniEval:
@@ -169,7 +179,14 @@ class MiniEval:
                 left = right
             return True
         if isinstance(e, ast.Call) and norm(e.func) in self.env and callable(self.env[norm(e.func)]):
-            return self.env[norm(e.func)](*[self.ev(a) for a in e.args])
+            args_ = [self.ev(a) for a in e.args]
+            kws_ = {k.arg: self.ev(k.value) for k in e.keywords if k.arg is not None}
+            try:
+                return self.env[norm(e.func)](*args_, **kws_)
+            except (_Ret, _Raised, _Fault, _Break, _Continue, AnalysisError):
+                raise
+            except Exception as exc:        # an environment callable modelling a failing user function
+                raise _Fault(type(exc).__name__) from None
         if isinstance(e, ast.Call) and self.resolve is not None and self.depth < 3 and not e.keywords \
                 and not any(isinstance(a, ast.Starred) for a in e.args):
             fn = self.resolve(norm(e.func))
@@ -209,6 +226,11 @@ class MiniEval:
                 return len(v)
             if e.func.id == 'bool' and len(e.args) == 1:
                 return bool(self.ev(e.args[0]))
+            if e.func.id == 'abs' and len(e.args) == 1:
+                v = self.ev(e.args[0])
+                if isinstance(v, bool) or not isinstance(v, (int, float)):
+                    raise _Fault('TypeError')
+                return abs(v)
         self.fail(e)
 
     def assign(self, target, value):
@@ -258,6 +280,34 @@ class MiniEval:
                 elif exc is not None:
                     name = norm(exc)
                 raise _Raised(name or 're-raise')
+            elif isinstance(st, ast.For) and not st.orelse:
+                seq = self.ev(st.iter)
+                if not isinstance(seq, (list, tuple, set, frozenset, dict, str)):
+                    raise _Fault('TypeError')
+                for item in list(seq):
+                    self.assign(st.target, item)
+                    try:
+                        self.block(st.body)
+                    except _Break:
+                        break
+                    except _Continue:
+                        continue
+            elif isinstance(st, ast.While) and not st.orelse:
+                n_ = 0
+                while self.ev(st.test):
+                    n_ += 1
+                    if n_ > 64:
+                        self.fail(st, '(loop bound of the mini-evaluator exceeded)')
+                    try:
+                        self.block(st.body)
+                    except _Break:
+                        break
+                    except _Continue:
+                        continue
+            elif isinstance(st, ast.Break):
+                raise _Break()
+            elif isinstance(st, ast.Continue):
+                raise _Continue()
             elif isinstance(st, ast.Try) and not st.finalbody:
                 try:
                     self.block(st.body)
@@ -266,6 +316,8 @@ class MiniEval:
                         ht = norm(h.type) if h.type is not None else 'Exception'
                         if any(t in ht for t in ('Exception', flt.name)) or \
                                 (flt.name in ('KeyError', 'IndexError') and 'LookupError' in ht):
+                            if h.name:
+                                self.env[h.name] = f'<{flt.name}>'
                             self.block(h.body)
                             break
                     else:
